@@ -5,6 +5,8 @@
 -/
 import Flounder.Model.MoveGen
 import Flounder.Spec.Chess
+import Flounder.Props.C01
+import Flounder.Props.C02
 
 namespace Flounder.Props.C17
 open Flounder Flounder.MoveGenerator
@@ -39,5 +41,97 @@ theorem capture_kinds (m : Move) : isCapture m = true ↔ m.kind = .capture ∨ 
 def FullStatement (g : MoveGenerator) : Prop :=
   ∀ b, Spec.valid b = true → ∀ m, m ∈ g.quiescenceMoveSet b ↔
     (Spec.legal (Spec.abs b) m = true ∧ (Spec.inCheck (Spec.abs b) = true ∨ Spec.tactical (Spec.abs b) m = true))
+
+/-! ### the full statement, from C01 (`generate_moves_exact`) and C02 (`make_move_refines`) -/
+
+open Flounder.Spec in
+/-- (i) for a legal move on a valid board, the engine's "gives check" test is the rules' check test on
+    the successor position. -/
+theorem isCheck_exact (b : Board) (hv : Spec.valid b = true) (m : Move)
+    (hl : Spec.legal (Spec.abs b) m = true) :
+    MoveGenerator.new.isCheck b m = Spec.inCheck (Spec.play (Spec.abs b) m) := by
+  obtain ⟨b', hmk, hbd, htn, _, _, hv'⟩ := Props.C02.make_move_refines b m hv hl
+  have h1 : MoveGenerator.new.isCheck b m = MoveGenerator.new.isInCheck b' := by
+    unfold isCheck isInCheck
+    rw [hmk]
+  rw [h1, Props.C01.is_in_check_exact b' hv']
+  unfold Spec.inCheck
+  rw [htn]
+  exact inCheckOf_congr hbd _
+
+open Flounder.Spec in
+/-- (ii) for a pseudo-legal move on a valid position, "capture/en-passant kind or promotion kind" is
+    "takes something by the rules, or promotes". -/
+theorem capture_or_promotion_exact {p : Spec.Pos} (hvp : Spec.ValidPos p) {m : Move}
+    (hps : Spec.pseudo p m = true) :
+    (isCapture m || isPromotion m) = (Spec.captures p m || m.kind == .promotion) := by
+  obtain ⟨pc, hf⟩ := playFacts hvp hps
+  unfold isCapture isPromotion Spec.captures
+  cases hk : m.kind
+  · rw [hf.dstEmpty (Or.inl hk)]; rfl
+  · have := hf.dstFull hk
+    cases hd : p.board m.dst with
+    | none => exact absurd hd this
+    | some x => rfl
+  · simp
+  · rw [hf.dstEmpty (Or.inr (Or.inr hk))]; rfl
+  · simp
+
+/-- for a legal move on a valid board the engine's selection predicate is the rules' `tactical`. -/
+theorem selection_exact (b : Board) (hv : Spec.valid b = true) (m : Move)
+    (hl : Spec.legal (Spec.abs b) m = true) :
+    (isCapture m || isPromotion m || MoveGenerator.new.isCheck b m) = Spec.tactical (Spec.abs b) m := by
+  have hps : Spec.pseudo (Spec.abs b) m = true := by
+    unfold Spec.legal at hl
+    simp only [Bool.and_eq_true] at hl
+    exact hl.1
+  unfold Spec.tactical
+  rw [isCheck_exact b hv m hl, capture_or_promotion_exact ((Spec.valid_iff b).1 hv).2 hps]
+
+/-- **C17**: on every valid board the moves `search_until_quiet` examines are exactly the legal moves
+    when the side to move is in check, and exactly the legal captures, promotions and checking moves
+    (by the rules of chess) otherwise. -/
+theorem quiescence_moves_exact : FullStatement MoveGenerator.new := by
+  intro b hv m
+  obtain ⟨_, hmem, hchk⟩ := Props.C01.generate_moves_exact b hv
+  unfold quiescenceMoveSet
+  rw [hchk]
+  cases hic : Spec.inCheck (Spec.abs b) with
+  | true =>
+    simp only [if_true, true_or, and_true]
+    exact hmem m
+  | false =>
+    simp only [Bool.false_eq_true, if_false, false_or]
+    unfold generateQuiescenceMoves
+    rw [List.mem_filter, hmem m]
+    constructor
+    · rintro ⟨hl, ht⟩
+      exact ⟨hl, by rw [← selection_exact b hv m hl]; exact ht⟩
+    · rintro ⟨hl, ht⟩
+      exact ⟨hl, by rw [selection_exact b hv m hl]; exact ht⟩
+
+/-- in check: the examined set is exactly the legal moves. -/
+theorem in_check_examines_all_legal (b : Board) (hv : Spec.valid b = true)
+    (hc : Spec.inCheck (Spec.abs b) = true) (m : Move) :
+    m ∈ MoveGenerator.new.quiescenceMoveSet b ↔ Spec.legal (Spec.abs b) m = true := by
+  rw [quiescence_moves_exact b hv m, hc]
+  simp
+
+/-- not in check: the examined set is exactly the legal moves that capture, promote or give check. -/
+theorem not_in_check_examines_tactical (b : Board) (hv : Spec.valid b = true)
+    (hc : Spec.inCheck (Spec.abs b) = false) (m : Move) :
+    m ∈ MoveGenerator.new.quiescenceMoveSet b ↔
+      (Spec.legal (Spec.abs b) m = true ∧ Spec.tactical (Spec.abs b) m = true) := by
+  rw [quiescence_moves_exact b hv m, hc]
+  simp
+
+/-- the examined list has no duplicates (it is a sublist of the generated list). -/
+theorem quiescence_nodup (b : Board) (hv : Spec.valid b = true) :
+    (MoveGenerator.new.quiescenceMoveSet b).Nodup := by
+  obtain ⟨hnd, _, _⟩ := Props.C01.generate_moves_exact b hv
+  unfold quiescenceMoveSet
+  split
+  · exact hnd
+  · exact hnd.sublist (quiescence_sublist _ _)
 
 end Flounder.Props.C17
